@@ -1,4 +1,5 @@
 import GoframeModel.Ops.SqlWrite
+import GoframeModel.Lemmas.Tx
 /-
   C12 — SQL export is all-or-nothing under a failure at any step.
   Protocol model: `runTx` (ToSQL / ToSQLContext: Begin, deferred Rollback, body, Commit) and `runBody`
@@ -6,7 +7,7 @@ import GoframeModel.Ops.SqlWrite
   The database is transactional: only a successful Commit publishes.
 -/
 namespace Goframe.C12
-open Goframe Sql
+open Goframe Sql TxLemmas
 
 def commitsOk (tr : List (Call × Bool)) : Nat := (tr.filter (fun c => c.1 = .commit ∧ c.2 = true)).length
 def rollbacks (tr : List (Call × Bool)) : Nat := (tr.filter (fun c => c.1 = .rollback)).length
@@ -20,36 +21,109 @@ def published {α} (old new : α) (tr : List (Call × Bool)) : α := if commitsO
 returns an error, nothing was committed, so the database is exactly as before; and once the transaction
 had begun it is rolled back (or its Commit is what failed, which ends it) -/
 theorem atomic_under_fault (f : Frame) (table : Str) (o : WriteOpts) (ex : Bool) (k : Nat)
-    (hk : k < (runTx f table o ex none).1.length)
-    (hnot_rb : ∀ c, (runTx f table o ex none).1[k]? = some c → c.1 ≠ .rollback) :
+    (hk : k < (runTx f table o ex none).1.length) :
     let (tr, ok) := runTx f table o ex (some k)
     ok = false ∧ commitsOk tr = 0 ∧ (∀ {α} (old new : α), published old new tr = old) ∧
     (k > 0 → rollbacks tr = 1 ∨ failedCommit tr = true) := by
-  sorry
+  have key : (runTx f table o ex (some k)).2 = false ∧ commitsOk (runTx f table o ex (some k)).1 = 0 ∧
+      (k > 0 → rollbacks (runTx f table o ex (some k)).1 = 1 ∨
+        failedCommit (runTx f table o ex (some k)).1 = true) := by
+    by_cases hk0 : k = 0
+    · subst hk0
+      simp [runTx, commitsOk]
+    · have hk1 : 1 ≤ k := by omega
+      have hb := runBody_isBody f table o ex (some k) 1
+      have hok := @runBody_ok_some f table o ex k
+      unfold runTx
+      simp only [Option.some.injEq, hk0, if_false]
+      generalize runBody f table o ex (some k) 1 = p at hb hok ⊢
+      obtain ⟨tr, ok⟩ := p
+      simp only at hb
+      cases ok with
+      | false =>
+        simp only [Bool.false_eq_true, if_false, true_and]
+        unfold commitsOk rollbacks
+        rw [filter_wrap tr _ _ _ hb (fun x => commit_not_body x true),
+          filter_wrap tr _ _ _ hb rollback_not_body]
+        simp
+      | true =>
+        obtain ⟨h1, h2⟩ := hok rfl hk1
+        have hci : k = 1 + tr.length := by omega
+        simp only [hci, if_true, true_and]
+        unfold commitsOk failedCommit
+        rw [filter_wrap tr _ _ _ hb (fun x => commit_not_body x true),
+          any_wrap tr _ _ _ hb (fun x => commit_not_body x false)]
+        simp
+  generalize runTx f table o ex (some k) = p at key ⊢
+  obtain ⟨tr, ok⟩ := p
+  obtain ⟨k1, k2, k3⟩ := key
+  simp only at k1 k2 k3 ⊢
+  refine ⟨k1, k2, ?_, k3⟩
+  intro α old new
+  simp [published, k2]
 
 /-- without a fault: success iff the body succeeds; then exactly one Commit, as the last call, and no Rollback -/
 theorem commit_exactly_once (f : Frame) (table : Str) (o : WriteOpts) (ex : Bool) :
     let (tr, ok) := runTx f table o ex none
     (ok = true → commitsOk tr = 1 ∧ rollbacks tr = 0 ∧ (tr.getLast?.map (·.1)) = some .commit) ∧
     (ok = false → commitsOk tr = 0 ∧ rollbacks tr = 1) := by
-  sorry
+  have hb := runBody_isBody f table o ex none 1
+  unfold runTx
+  simp only [reduceCtorEq, if_false]
+  generalize runBody f table o ex none 1 = p at hb ⊢
+  obtain ⟨tr, ok⟩ := p
+  simp only at hb
+  cases ok with
+  | false =>
+    simp only [Bool.false_eq_true, if_false]
+    unfold commitsOk rollbacks
+    rw [filter_wrap tr _ _ _ hb (fun x => commit_not_body x true),
+      filter_wrap tr _ _ _ hb rollback_not_body]
+    simp
+  | true =>
+    simp only [if_true]
+    have hl : ((Call.begin, true) :: tr ++ [(Call.commit, true)]).getLast? = some (Call.commit, true) := by
+      rw [List.getLast?_concat]
+    unfold commitsOk rollbacks
+    rw [filter_wrap tr _ _ _ hb (fun x => commit_not_body x true),
+      filter_wrap tr _ _ _ hb rollback_not_body, hl]
+    simp
 
 /-- an error of the body (validation, existing table in "fail" mode) is also rolled back, never committed -/
 theorem body_error_rolls_back (f : Frame) (table : Str) (o : WriteOpts) (ex : Bool) (fa : Option Nat)
     (h : (runBody f table o ex fa 1).2 = false) (hb : fa ≠ some 0) :
     commitsOk (runTx f table o ex fa).1 = 0 ∧ (runTx f table o ex fa).2 = false := by
-  sorry
+  have hbody := runBody_isBody f table o ex fa 1
+  unfold runTx
+  simp only [hb, if_false]
+  generalize runBody f table o ex fa 1 = p at hbody h ⊢
+  obtain ⟨tr, ok⟩ := p
+  simp only at hbody h
+  subst h
+  simp only [Bool.false_eq_true, if_false, and_true]
+  unfold commitsOk
+  rw [filter_wrap tr _ _ _ hbody (fun x => commit_not_body x true)]
+  simp
 
 /-- the Tx variants never commit or roll back the caller's transaction, whether they succeed or fail -/
 theorem tx_variants_never_end_tx (f : Frame) (table : Str) (o : WriteOpts) (ex : Bool) (fa : Option Nat) (start : Nat) :
     ∀ c ∈ (runBody f table o ex fa start).1, c.1 ≠ .commit ∧ c.1 ≠ .rollback ∧ c.1 ≠ .begin := by
-  sorry
+  intro c hc
+  have := runBody_isBody f table o ex fa start c hc
+  cases hc1 : c.1 <;> simp [hc1, isBody] at this ⊢
 
 /-- a failing call stops the body: nothing is issued after it, and the body reports the error -/
 theorem fault_stops_body (f : Frame) (table : Str) (o : WriteOpts) (ex : Bool) (k : Nat)
     (hk : k < (runBody f table o ex none 0).1.length) :
     let (tr, ok) := runBody f table o ex (some k) 0
     ok = false ∧ tr.length = k + 1 ∧ (tr.getLast?.map (·.2)) = some false := by
-  sorry
+  rcases runBody_cases f table o ex with h0 | ⟨calls, good, _, hc⟩
+  · rw [h0] at hk; simp at hk
+  · rw [hc, runCalls_none] at hk
+    simp only [List.length_map] at hk
+    obtain ⟨h1, h2, h3⟩ := runCalls_in calls k 0 (by omega) (by omega)
+    rw [hc]
+    simp only [h1, Bool.false_and, true_and]
+    exact ⟨by simpa using h2, h3⟩
 
 end Goframe.C12
